@@ -153,6 +153,13 @@ package atree
 //@   # the child found under the key is registered with the inline limit of a value stored under THAT key (C10: the updater's
 //@   # "nothing to do" shortcut compares the child's size with this limit)
 //@   before[C10] OrderedMap.setCallbackWithChild: maxInlineSize == maxInlineMapElementSize - bs(keyStorable) - 1
+//@   # the root is asked about the caller's key with its first-level digest; what comes back is converted to values one by one and the
+//@   # value (not the key) is registered as the child under that key (C13)
+//@   before[C13] MapSlab.getElementAndNextKey: arg_recv == m.root && arg_storage == m.Storage && arg_level == 0 && arg_hkey == dig(key, 0) && dgKey(arg_digester) == key &&
+//@        arg_comparator == comparator && arg_key == key
+//@   before[C13] OrderedMap.setCallbackWithChild: k == svOf(keyStorable) && v == svOf(valueStorable) && ite(nextKeyStorable != nil, nextKey == svOf(nextKeyStorable), nextKey == nil) &&
+//@        arg_comparator == comparator && arg_hip == hip && arg_key == key && arg_child == v
+//@   exit[C13] err == nil ==> nk == nextKey
 //@   modifies OrderedMap.parentUpdater, Array.parentUpdater, basicDigester.circleHash64, basicDigester.blake3Hash, basicDigester.msg, basicDigester.scratch, alloc
 
 //@ func (m *OrderedMap) getNextKey(comparator, hip, key) (nk, err)  serves C13 C18
